@@ -8,6 +8,7 @@ CONSTANTS
     OnlyInvolutive = FALSE
     DistAll = FALSE
     Dists = {1, 2, 3, 4}
+    SessMemo = FALSE
     LinMode = "doc"
     EmitOn = TRUE
 INIT Init
@@ -20,6 +21,7 @@ INVARIANT ThZero
 INVARIANT ThInvol
 INVARIANT ThParam
 INVARIANT ThScale
+INVARIANT ThSess
 INVARIANT ThSafe
 INVARIANT Emit
 CHECK_DEADLOCK FALSE
